@@ -112,8 +112,31 @@ def multi_tokens(case, i):
     return toks, objs
 
 
+def multi_src(case, i):
+    """how file i becomes a model: file 0 as the load configuration says; the others are read from their files by the
+    scope provider — or, mode "repo" with lib "add_str" / "add_file", loaded by the user and handed to the provider
+    with add_model (the documented way of combining models parsed from strings)"""
+    if i == 0:
+        return src_of(case)
+    if case.get("mode") == "repo" and case.get("lib") == "add_str":
+        return "str"
+    return "file"
+
+
 def multi_translated(case, i):
-    return True if i > 0 else translated(case)
+    return multi_src(case, i) in ("file", "rel")
+
+
+def multi_visible(case, i):
+    """files whose items file i can refer to"""
+    n = len(case["files"])
+    if case.get("mode") != "repo":
+        return [i] + list(case["files"][i]["imports"])
+    if i == 0:
+        return list(range(n))
+    if case.get("lib", "pattern") == "pattern":
+        return list(range(1, n))
+    return list(range(1, i + 1))  # added one after the other
 
 
 def multi_expected(case, i, translate=None):
@@ -146,7 +169,10 @@ def multi_valid(case):
             if j not in seen:
                 seen.add(j)
                 todo.append(j)
-    if len(seen) != len(files):
+    if case.get("mode") == "repo":
+        if any(f["imports"] for f in files) or (len(files) < 2 and case.get("lib", "pattern") == "pattern"):
+            return False
+    elif len(seen) != len(files):
         return False
     where = {}
     for i, f in enumerate(files):
@@ -156,12 +182,44 @@ def multi_valid(case):
             where[name] = i
     for i, f in enumerate(files):
         for _, ref in f["items"]:
-            if ref is not None and where.get(ref) not in [i] + f["imports"]:
+            if ref is not None and where.get(ref) not in multi_visible(case, i):
                 return False
     return True
 
 
+def gen_multi_repo(r):
+    """mode "repo": no imports — the other files are found by a global-repository scope provider (FQNGlobalRepo /
+    PlainNameGlobalRepo) through a file pattern, or were loaded before (from strings / files) and added with
+    add_model.  File 0 may now be given as a string without file name: the provider enters it into the model
+    repository under an invented name, which is not "the model's file name"."""
+    nf = r.randint(2, 4)
+    dirs = ["", "", "sub", "sub/deep", "lib"]
+    files = [{"path": posixpath.join(r.choice(dirs) if i else "", f"f{i}.txt"), "imports": [],
+              "items": [[f"n{i}x{k}", None] for k in range(r.randint(1, 3))]} for i in range(nf)]
+    case = {"kind": "multi", "mode": "repo", "files": files, "provider": r.choice(["fqn", "plain"]),
+            "lib": r.weighted([("pattern", 3), ("add_str", 1), ("add_file", 1)]), "global_repo": r.chance(0.25)}
+    for i, f in enumerate(files):
+        visible = [it[0] for j in multi_visible(case, i) for it in files[j]["items"]]
+        for it in f["items"]:
+            if r.chance(0.65):
+                it[1] = r.choice(visible)
+        f["layout"] = G.gen_layout(r, MULTI_LAYOUT_GRAM, len(multi_tokens(case, i)[0]))
+    c = r.fork("cfg")
+    src = c.weighted([("str", 5), ("file", 2), ("named", 1), ("rel", 1)])
+    case.update({"mm_src": c.weighted([("str", 4), ("file", 3), ("named", 1)]), "src": src, "file": src in ("file", "rel"),
+                 "proc": c.chance(0.3)})
+    if src == "named":
+        # a shared repository caches models by file name: a text given *for* a file that an earlier load has already
+        # read from disk is (by design) not parsed again — the "editor buffer" would not be the input
+        case["global_repo"] = False
+    if c.chance(0.4):  # further string models with the same meta-model (and provider) before / after
+        case["hist"] = {"pre": ["str"] * c.randint(0, 2), "post": ["str"] * c.randint(0, 2)}
+    return case
+
+
 def gen_multi(r):
+    if r.fork("mode").chance(0.5):
+        return gen_multi_repo(r)
     nf = r.randint(2, 4)
     dirs = ["", "", "sub", "sub/deep", "lib"]
     files = [{"path": posixpath.join(r.choice(dirs) if i else "", f"f{i}.txt"), "imports": [], "items": []}
@@ -686,25 +744,80 @@ class Prop(Check):
     def load_multi(self, case, L):
         from textx.scoping.providers import PlainNameImportURI
 
+        import textx
+        from textx.scoping.providers import FQNGlobalRepo, PlainNameGlobalRepo
+
         L.grammar = MULTI_GRAMMAR
-        L.mm = self.make_mm(case, L, MULTI_GRAMMAR, procs=MULTI_NAMES)
-        L.mm.register_scope_providers({"*.*": PlainNameImportURI()})
+        repo = case.get("mode") == "repo"
+        kw = {"global_repository": True} if case.get("global_repo") else {}
+        L.mm = self.make_mm(case, L, MULTI_GRAMMAR, procs=MULTI_NAMES, **kw)
         root = self.tmpdir(L)
+        lib = case.get("lib", "pattern")
+        if repo:
+            cls = FQNGlobalRepo if case.get("provider") == "fqn" else PlainNameGlobalRepo
+            if lib == "pattern":
+                provider = cls(os.path.join(root, "**", "*.txt"), glob_args={"recursive": True})
+            else:
+                provider = cls()
+            L.mm.register_scope_providers({"*.*": provider})
+        else:
+            L.mm.register_scope_providers({"*.*": PlainNameImportURI()})
         L.paths = []
+        L.libs = {}
         for i, f in enumerate(case["files"]):
             path = os.path.join(root, *f["path"].split("/"))
             os.makedirs(os.path.dirname(path), exist_ok=True)
-            with open(path, "wb") as fh:
-                fh.write(multi_expected(case, i, translate=False)[0].encode("utf-8"))
+            if multi_src(case, i) != "str":  # a model given as a string has no file (the pattern must not find one)
+                with open(path, "wb") as fh:
+                    fh.write(multi_expected(case, i, translate=False)[0].encode("utf-8"))
             L.paths.append(path)
+        hist = case.get("hist") or {}
+        L.keep = []
+
+        def others(hows):
+            for how in hows:  # only "str" in this family: a file would be found by the pattern
+                m = L.mm.model_from_str("item zq%d" % len(L.keep))
+                L.keep.append(m)
+                try:
+                    textx.get_location(m.items[0])
+                except Exception:
+                    pass
+
+        if repo and lib != "pattern":
+            for i in range(1, len(case["files"])):
+                raw = multi_expected(case, i, translate=False)[0]
+                L.libs[i] = self.load_text(L, L.mm, multi_src(case, i), raw, case["files"][i]["path"])[0]
+                provider.add_model(L.libs[i])
+        others(hist.get("pre", []))
         raw = multi_expected(case, 0, translate=False)[0]
         L.model, L.file = self.load_text(L, L.mm, src_of(case), raw, case["files"][0]["path"])
+        others(hist.get("post", []))
 
     def observe_multi(self, case, L):
         files = case["files"]
         models = [None] * len(files)
         models[0] = L.model
         todo = [0]
+        if case.get("mode") == "repo":
+            # the models of the repository of file 0 (and the added ones), told apart by the names of their items
+            todo = []
+            cands = list(L.libs.values())
+            try:
+                cands += list(L.model._tx_model_repository.all_models.filename_to_model.values())
+            except Exception as e:
+                return {"outcome": "shape", "why": f"no model repository on file 0 ({type(e).__name__})"}
+            for m in cands:
+                items = getattr(m, "items", None)
+                mt = re.fullmatch(r"n(\d+)x\d+", str(getattr(items[0], "name", ""))) if isinstance(items, list) and items else None
+                if mt is None or int(mt.group(1)) >= len(files):
+                    continue  # a history model
+                i = int(mt.group(1))
+                if models[i] is None:
+                    models[i] = m
+                elif models[i] is not m:
+                    return {"outcome": "shape", "why": f"file {i} was loaded as two different models"}
+            if any(m is None for m in models):
+                return {"outcome": "shape", "why": f"files {[i for i, m in enumerate(models) if m is None]} are not in the repository"}
         while todo:
             i = todo.pop()
             imps = getattr(models[i], "imports", None)
@@ -766,7 +879,7 @@ class Prop(Check):
         if case["kind"] == "multi":
             heap = [h for s in subs for h in self.lean_heap(s["heap"])]
             # file i of the case has the file name i + 1; a model without file name has none
-            roots = [[s["off"], s["input"], (i + 1) if (i > 0 or src_of(case) != "str") else None]
+            roots = [[s["off"], s["input"], (i + 1) if multi_src(case, i) != "str" else None]
                      for i, s in enumerate(subs)]
             reqs = [{"op": "locm", "heap": heap, "roots": roots, "xs": list(range(len(heap)))}]
             for s in subs:
@@ -954,8 +1067,11 @@ class Prop(Check):
         for i, ((text, exp), s) in enumerate(zip(exps, obs["models"])):
             if s["input"] != text:
                 return f"file {i}: the parser input differs from the text of the file"
-            f = self.oracle_model(text, exp, s["objs"], f"f{i}", f"file {i} of the case ('f{i}')", label=f"file {i}: ",
-                                  plocs=s.get("plocs") or ())
+            if multi_src(case, i) == "str":
+                want = (None, "None (the model was given as a string)")
+            else:
+                want = (f"f{i}", f"file {i} of the case ('f{i}')")
+            f = self.oracle_model(text, exp, s["objs"], want[0], want[1], label=f"file {i}: ", plocs=s.get("plocs") or ())
             if f:
                 return f
             want = [[s["off"] + o["eid"], obs["models"][where[ref][0]]["off"] + where[ref][1]]
@@ -1014,7 +1130,7 @@ class Prop(Check):
         src = src_of(case)
         simpler = {"rel": ["str", "file"], "file": ["str"], "named": ["str", "file"], "str": []}[src]
         for s in simpler:
-            if not (case["kind"] == "multi" and s == "str"):
+            if not (case["kind"] == "multi" and s == "str" and case.get("mode") != "repo"):
                 yield with_src(case, s)
         if case["kind"] == "mini":
             t = case["text"]
@@ -1088,6 +1204,12 @@ class Prop(Check):
             return G._copy(case)
 
         files = case["files"]
+        if case.get("global_repo"):
+            yield dict(case, global_repo=False)
+        if case.get("mode") == "repo" and case.get("lib", "pattern") != "pattern":
+            c = dict(case, lib="pattern")
+            if multi_valid(c):
+                yield c
         for k in reversed(range(1, len(files))):  # drop a whole file
             c = cp()
             del c["files"][k]
